@@ -38,7 +38,24 @@ use std::time::{Duration, Instant};
 
 const ADAPTERS: [&str; 4] = ["reqwest", "reqwest-blocking", "curl", "ureq"];
 const STATUSES: [u16; 10] = [200, 201, 302, 400, 401, 403, 404, 429, 500, 503];
-const CTS: [Option<&str>; 4] = [Some("application/json"), None, Some("Application/JSON; charset=utf-8"), Some("text/html")];
+/// Content-Type values. A char in U+E080..=U+E0FF stands for the single RAW byte (char - 0xE000) on the wire (`ct_bytes`),
+/// so that values that are not UTF-8 can be written down: `caf\u{e9}` is UTF-8 obs-text (C3 A9), `caf\u{e0e9}` the
+/// Latin-1 byte E9.
+const CTS: [Option<&str>; 6] = [Some("application/json"), None, Some("Application/JSON; charset=utf-8"), Some("text/html"), Some("text/html; t=caf\u{e9}"), Some("text/html; t=caf\u{e0e9}")];
+
+fn ct_bytes(s: &str) -> Vec<u8> {
+    let mut out = Vec::new();
+    for c in s.chars() {
+        let u = c as u32;
+        if (0xE080..=0xE0FF).contains(&u) {
+            out.push((u - 0xE000) as u8);
+        } else {
+            let mut b = [0u8; 4];
+            out.extend_from_slice(c.encode_utf8(&mut b).as_bytes());
+        }
+    }
+    out
+}
 const BODIES: [&str; 6] = ["json", "empty", "binary", "64k", "chunked", "close-delimited"];
 const REQ_BODIES: [&str; 4] = ["small", "1k", "64k", "bytes256"];
 const FAULTS: [&str; 9] = [
@@ -237,16 +254,18 @@ fn read_request(s: &mut TcpStream) -> Captured {
 }
 
 fn head_bytes(status: u16, content_type: &Option<String>, extra: &[String]) -> Vec<u8> {
-    let mut h = format!("HTTP/1.1 {} {}\r\nServer: verif-loopback\r\n", status, reason(status));
+    let mut h = format!("HTTP/1.1 {} {}\r\nServer: verif-loopback\r\n", status, reason(status)).into_bytes();
     if let Some(ct) = content_type {
-        h.push_str(&format!("Content-Type: {ct}\r\n"));
+        h.extend_from_slice(b"Content-Type: ");
+        h.extend_from_slice(&ct_bytes(ct));
+        h.extend_from_slice(b"\r\n");
     }
     for e in extra {
-        h.push_str(e);
-        h.push_str("\r\n");
+        h.extend_from_slice(e.as_bytes());
+        h.extend_from_slice(b"\r\n");
     }
-    h.push_str("Connection: close\r\n\r\n");
-    h.into_bytes()
+    h.extend_from_slice(b"Connection: close\r\n\r\n");
+    h
 }
 
 fn serve(mut s: TcpStream, action: &Action, port: u16) -> Captured {
@@ -540,7 +559,7 @@ fn run_case(c: &Case) -> Result<CaseRun, String> {
                 "close-delimited" => Framing::CloseDelimited,
                 _ => Framing::ContentLength,
             };
-            let ctb = content_type.as_ref().map(|s| s.as_bytes().to_vec());
+            let ctb = content_type.as_ref().map(|s| ct_bytes(s));
             (
                 Some(vec![Action::Reply { status: *status, content_type: content_type.clone(), location: *status == 302, body: b.clone(), framing }]),
                 format!("r {} {} {}", status, hopt_b(ctb.as_deref()), hex(&b)),
@@ -648,8 +667,10 @@ fn run_case(c: &Case) -> Result<CaseRun, String> {
     match (&expect, &ret) {
         (_, Ret::Hang) => oracle.push((sig("hang"), format!("no result after {} s", WATCHDOG.as_secs()))),
         (_, Ret::Panic) => oracle.push((sig("panic"), "the adapter call panicked".into())),
-        (Some((st, _, body)), Ret::Err(v)) => {
-            let clause = if *st >= 400 { "status>=400-returned-as-error" } else { "reply-returned-as-error" };
+        (Some((st, ct, body)), Ret::Err(v)) => {
+            // a Content-Type with a byte outside visible ASCII is the one reply dimension some engines cannot show
+            let exotic_ct = ct.as_ref().map(|v| v.iter().any(|b| !(0x20..=0x7e).contains(b) && *b != 9)).unwrap_or(false);
+            let clause = if exotic_ct { "reply-returned-as-error:content-type-not-visible-ascii" } else if *st >= 400 { "status>=400-returned-as-error" } else { "reply-returned-as-error" };
             oracle.push((sig(clause), format!("server sent a complete {st} reply ({} body bytes); adapter returned Err(HttpClientError::{v})", body.len())));
         }
         (Some((st, ct, body)), Ret::Ok { status, content_types, body: rb }) => {
